@@ -26,5 +26,15 @@ pub mod layout {
 //@include air/layouts/starknet_light.rs
 //@iffeature light_starknet_with_keccak
 //@include air/layouts/starknet_with_keccak_light.rs
+//@iffeature mid_dex
+//@include air/layouts/dex_mid.rs
+//@iffeature mid_small
+//@include air/layouts/small_mid.rs
+//@iffeature mid_recursive_with_poseidon
+//@include air/layouts/recursive_with_poseidon_mid.rs
+//@iffeature mid_starknet
+//@include air/layouts/starknet_mid.rs
+//@iffeature mid_starknet_with_keccak
+//@include air/layouts/starknet_with_keccak_mid.rs
 } // mod layout
 } // mod swiftness_air
